@@ -40,6 +40,42 @@ def r1(ctx, F):
     ctx.floor("C16.R1", "matcher structs with components", n, 13)
 
 
+def zip_guarded(F, f, c):
+    """the zip call `c` in f lies on the true edge of an equality comparison of two lengths"""
+    from kern import bool_local_edges, origins
+    for st in f.stmts:
+        if not re.match(r"binop (Eq|Ne)", st.kind) or "usize" not in st.text() or st.bb in f.cleanup:
+            continue
+        srcs = [o for op in st.ops[0].split(" , ") for o in origins(f, op, pass_calls=None)]
+        if sum(1 for o in srcs if o[0] == "call" and re.search(r"::len$", o[1].name)) < 2:
+            continue
+        te = bool_local_edges(f, st.lhs_local, "true" if st.kind.startswith("binop Eq") else "false")
+        if te and c.bb not in f.reach(0, cut_edges=te):
+            return True
+    return False
+
+
+def r1b(ctx, F):
+    """positional sequence matchers check the arity: a zip over (elements, component matchers) is guarded by a
+    length equality (zip silently truncates to the shorter side)"""
+    n = 0
+    for f in F.fns.values():
+        if f.crate != "starlark":
+            continue
+        t = top_fn(F, f)
+        if not re.search(r"as values::typing::type_compiled::matcher::TypeMatcher>::matches$", t.qpath):
+            continue
+        for c in f.calls:
+            if re.search(r"Iterator::zip$|iter::zip$", c.name) and c.bb not in f.cleanup:
+                n += 1
+                ctx.check(zip_guarded(F, f, c), "C16.R1", "zip-arity-guard:" + short_fn(t.qpath),
+                          "the element-wise zip is guarded by an equality test of the two lengths",
+                          "`%s` zips the value's elements with the component matchers without first comparing the "
+                          "lengths: zip stops at the shorter side, so tuples of the wrong arity are accepted"
+                          % short_fn(t.qpath), fn=f, line=c.line)
+    ctx.floor("C16.R1", "zip calls in matchers", n, 1)
+
+
 def r2(ctx, F):
     cg = CallGraph(F, expand={"TypeMatcher", "TypeMatcherDyn", "TypeCompiledDyn", "TypeCompiledImpl"})
     matches = F.one(r"values::typing::type_compiled::compiled::TypeCompiled::<V>::matches$")
@@ -84,4 +120,5 @@ def r2(ctx, F):
 def run(ctx):
     F = ctx.facts("core")
     r1(ctx, F)
+    r1b(ctx, F)
     r2(ctx, F)
